@@ -188,7 +188,7 @@ theorem renameDec_graph (x y : String) (ti : TypeInfo) (q : Program)
   have H : SimHyp ti (ti.renameCallable x y) q (renameDec x y q) (renName x y) (FDec x y) (GDec x y)
       (fun _ env => mapVals (mapSref (fun c path => (renName x y c, path))) env) (fun _ _ v => (mapSref (fun c path => (renName x y c, path))) v) (mapSref (fun c path => (renName x y c, path)))
       (fun c => pipeOKCall x c = true ∧ c.name ≠ y ∧ ∀ k ∈ c.calls, k.decId ≠ y)
-      (fun _ _ => True) (fun _ _ => True) (fun n => n ≠ y) := by
+      (fun _ _ => True) (fun _ _ => True) (fun n => n ≠ y) (fun _ _ => true) := by
     refine { hfind1 := ?_, hfind0 := ?_, hrel := ?_, hF := ?_, hcalls := ?_, hGid := ?_, hGdec := ?_, hfirst := ?_,
              hO0 := ?_, hOs := ?_, o0 := ?_, o0s := ?_, o1 := ?_, o2 := ?_, c5 := ?_, c6 := ?_, c7 := ?_ }
     · intro n d hd
@@ -204,6 +204,7 @@ theorem renameDec_graph (x y : String) (ti : TypeInfo) (q : Program)
       unfold FDec
       split <;> simp [renName, *]
     · intro pipe hg
+      rw [show (pipe.calls.filter (fun k => (fun (_ : Callable) (_ : String) => true) pipe k.id)) = pipe.calls from filter_true' _]
       unfold FDec GDec
       split
       · simp
@@ -231,7 +232,9 @@ theorem renameDec_graph (x y : String) (ti : TypeInfo) (q : Program)
     · intros; trivial
     · intros; trivial
     · -- c5
-      intro pipe self sib k d id hg _ _ hk hd
+      intro pipe self sib sib' k d id hg _ _ hag _ hk hd
+      have hs' := sibAgree_true hag
+      subst hs'
       have hparts := pipeOKCall_parts hg.1
       have hkm := (call_mem pipe id k hk).1
       have hdname := find_name q _ d hd
@@ -250,7 +253,9 @@ theorem renameDec_graph (x y : String) (ti : TypeInfo) (q : Program)
       rw [this, resolveBinds_ti_ok ti _ ok hmo hclosed _ (hinsOK d.name)]
       exact resolveBinds_post _ ti _ _ _
     · -- c6
-      intro d ins sib hg hp _ _
+      intro d ins sib sib' hg hp _ _ hag
+      have hs' := sibAgree_true hag
+      subst hs'
       have hparts := pipeOKCall_parts hg.1
       have hOsib : Osib q (fun _ _ v => (mapSref (fun c path => (renName x y c, path))) v) d sib = fun id => (mapSref (fun c path => (renName x y c, path))) (sib id) := rfl
       have hdy : d.name ≠ y := hg.2.1
@@ -266,7 +271,9 @@ theorem renameDec_graph (x y : String) (ti : TypeInfo) (q : Program)
       simp only [mapSref]
       rw [envEntries_mapVals]
     · -- c7
-      intro d ins sib hg hp _ _
+      intro d ins sib sib' hg hp _ _ hag
+      have hs' := sibAgree_true hag
+      subst hs'
       have hOsib : Osib q (fun _ _ v => (mapSref (fun c path => (renName x y c, path))) v) d sib = fun id => (mapSref (fun c path => (renName x y c, path))) (sib id) := rfl
       have hret : (FDec x y d).retain = d.retain := by unfold FDec; split <;> rfl
       rw [hOsib]
@@ -280,11 +287,11 @@ theorem renameDec_graph (x y : String) (ti : TypeInfo) (q : Program)
       (fun _ _ v => (mapSref (fun c path => (renName x y c, path))) v)
       (mapSref (fun c path => (renName x y c, path))) = renNodeCallable x y := by
     funext n; rfl
-  rw [← hmap]
+  rw [← deepGraphKeep_true ti q, ← hmap]
   apply sim_graph H
   · intro t ht
     have htop : t.decId ≠ y ∧ pipeOKCall x (topPipe t) = true := by simpa [ht] using htopok
-    refine ⟨?_, ?_, ⟨htop.2, ?_, ?_⟩, trivial⟩
+    refine ⟨?_, ?_, ⟨htop.2, ?_, ?_⟩, trivial, rfl⟩
     · rw [hp']; simp [ht, GDec, topPipe, Ne.symm hx]
     · simp [GDec, FDec, topPipe, Ne.symm hx]
     · simp [topPipe, Ne.symm hy]
